@@ -2519,6 +2519,7 @@ func main() {
 		}
 		tasks = append(tasks, task{weight: wgt, f: func() { runReconnect(run, cy, c) }})
 	}
+	tasks = append(tasks, userRestartTasks(run, small)...)
 	for _, c := range bufferCases(run, small) {
 		tasks = append(tasks, task{weight: 5 + 3*c.Outages, f: func() { runBuffer(run, c) }})
 	}
